@@ -341,21 +341,13 @@ func ruleTableEscape(p *Prog, r *Report) {
 
 var nanInfSpellings = []string{"nan", "inf", "+inf", "-inf", "infinity", "+infinity", "-infinity"}
 
-// ruleTableNanInf: every return of a strconv.ParseFloat result from the cast function is reached, on paths where castNanInf
-// is not known true, only after the case-folded input was compared unequal to all seven spellings ParseFloat accepts for
-// NaN/Inf, or after !math.IsNaN && !math.IsInf tests of the result.
-func ruleTableNanInf(p *Prog, r *Report) {
-	const rule = "TABLE.naninf"
-	fn := p.Fn("mxj.cast")
-	flag := p.Globals["mxj.castNanInf"]
-	if fn == nil || flag == nil {
-		r.Anchor(rule, "mxj.cast")
-		return
-	}
-	s := fn.Params[0]
+// nanInfExcluded: must-analysis over f — for every block, the NaN/Inf spellings that the (case-folded) string parameter sp has been
+// compared unequal to on every path into the block on which flag is not known true. A branch on a module predicate called with
+// the parameter excludes, on its false edge, what that predicate excludes before every `return false` (its own summary).
+func (p *Prog) nanInfExcluded(fn *ssa.Function, sp *ssa.Parameter, flag *ssa.Global, depth int) map[*ssa.BasicBlock]map[string]bool {
+	s := sp
 	cz := p.canonFor(fn)
-	// must-analysis: excluded[b] = spellings excluded on all flag-not-true paths into b; "*" = universe
-	type st map[string]bool
+	type st = map[string]bool
 	universe := func() st {
 		u := st{}
 		for _, sp := range nanInfSpellings {
@@ -394,7 +386,7 @@ func ruleTableNanInf(p *Prog, r *Report) {
 				}
 				if ifi, ok := b.Instrs[len(b.Instrs)-1].(*ssa.If); ok {
 					ng := normGuard(guard{ifi.Cond, si == 0})
-					if globalOf(ng.Cond) == flag && ng.Pol {
+					if flag != nil && globalOf(ng.Cond) == flag && ng.Pol {
 						es = universe()
 					}
 					if bo, ok := ng.Cond.(*ssa.BinOp); ok && (bo.Op == token.EQL || bo.Op == token.NEQ) {
@@ -412,6 +404,35 @@ func ruleTableNanInf(p *Prog, r *Report) {
 							es[lit] = true
 						}
 					}
+					// a predicate of the module applied to the input: its false answer excludes what it tests for
+					if c, ok := ng.Cond.(*ssa.Call); ok && !ng.Pol && depth < 2 {
+						if h := staticCallee(&c.Call); h != nil && p.InModule(h) && len(h.Blocks) > 0 && len(c.Call.Args) == 1 && len(h.Params) == 1 && isFoldedInput(c.Call.Args[0]) && isStringType(h.Params[0].Type()) {
+							folded := strings.HasPrefix(cz.of(c.Call.Args[0]), "strings.ToLower")
+							hin := p.nanInfExcluded(h, h.Params[0], nil, depth+1)
+							var sum st
+							eachInstr(h, func(hb *ssa.BasicBlock, hi ssa.Instruction) {
+								ret, isRet := hi.(*ssa.Return)
+								if !isRet || len(ret.Results) != 1 {
+									return
+								}
+								if bv, isC := constBool(ret.Results[0]); isC && bv {
+									return // a `true` answer does not go over this edge
+								}
+								if sum == nil {
+									sum = st{}
+									for k := range hin[hb] {
+										sum[k] = true
+									}
+								} else {
+									sum = meet(sum, hin[hb])
+								}
+							})
+							_ = folded
+							for k := range sum {
+								es[k] = true
+							}
+						}
+					}
 				}
 				if !have[succ] {
 					in[succ] = es
@@ -427,6 +448,21 @@ func ruleTableNanInf(p *Prog, r *Report) {
 			}
 		}
 	}
+	return in
+}
+
+// ruleTableNanInf: every return of a strconv.ParseFloat result from the cast function is reached, on paths where castNanInf
+// is not known true, only after the case-folded input was compared unequal to all seven spellings ParseFloat accepts for
+// NaN/Inf, or after !math.IsNaN && !math.IsInf tests of the result.
+func ruleTableNanInf(p *Prog, r *Report) {
+	const rule = "TABLE.naninf"
+	fn := p.Fn("mxj.cast")
+	flag := p.Globals["mxj.castNanInf"]
+	if fn == nil || flag == nil {
+		r.Anchor(rule, "mxj.cast")
+		return
+	}
+	in := p.nanInfExcluded(fn, fn.Params[0], flag, 0)
 	n := 0
 	eachInstr(fn, func(b *ssa.BasicBlock, i2 ssa.Instruction) {
 		c, ok := i2.(*ssa.Call)
